@@ -32,6 +32,8 @@ Lemma mS_range c bd : mS D (LoopRange c bd) = 3 + mL D bd.
 Proof. reflexivity. Qed.
 Lemma mS_data bd : mS D (LoopData bd) = 2 + D * (1 + mL D bd).
 Proof. reflexivity. Qed.
+Lemma mS_ioe kd h : mS D (IoE kd h) = 1 + mL D h.
+Proof. reflexivity. Qed.
 Lemma mS_sel cs : mS D (Sel cs) = 1 + mC D cs.
 Proof.
   cbn [mS]. f_equal. unfold mC.
@@ -84,6 +86,8 @@ Lemma okS_range me f c bd : okS N me f (LoopRange c bd) = checkb N me f (LoopRan
 Proof. reflexivity. Qed.
 Lemma okS_data me f bd : okS N me f (LoopData bd) = checkb N me f (LoopData bd) && okL N me f bd.
 Proof. reflexivity. Qed.
+Lemma okS_ioe me f kd h : okS N me f (IoE kd h) = checkb N me f (IoE kd h) && okL N me f h.
+Proof. reflexivity. Qed.
 Lemma okS_check me f s : okS N me f s = true -> checkb N me f s = true.
 Proof. destruct s; cbn [okS]; intro H; apply andb_true_iff in H; tauto. Qed.
 Lemma okC_in me f cs a bd : okC N me f cs = true -> In (a, bd) cs -> okL N me f bd = true.
@@ -114,6 +118,8 @@ Variable D : nat.
 Inductive cstep : list item -> outcome -> Prop :=
 | c_sel cs a bd k : In (a, bd) cs -> cstep (IStmt (Sel cs) :: k) (Cont (lift bd ++ k))
 | c_io kd k : cstep (IStmt (Io kd) :: k) (Cont k)
+| c_ioe_ok kd h k : cstep (IStmt (IoE kd h) :: k) (Cont k)
+| c_ioe_fail kd h k : cstep (IStmt (IoE kd h) :: k) (Cont (lift h ++ k))
 | c_cancel k : cstep (IStmt Cancel :: k) (Cont k)
 | c_ifctx k : cstep (IStmt IfCtxExit :: k) Exit
 | c_return k : cstep (IStmt Return :: k) Exit
@@ -154,6 +160,12 @@ Proof.
       * destruct (exitsL bd); lia.
     + intros k' E; inversion E; subst. rewrite okK_app, okK_lift, (okC_in _ _ _ _ _ _ Wc H0). exact Wk.
   - split; [cbn; lia|intros k' E; inversion E; subst; exact Wk].
+  - (* ioe ok *) rewrite mS_ioe. split; [cbn [exitsS]; lia|intros k' E; inversion E; subst; exact Wk].
+  - (* ioe fail *)
+    rewrite mS_ioe. pose proof (M_lift_app_le D h k0) as B.
+    rewrite okS_ioe in Wi. apply andb_true_iff in Wi. destruct Wi as [_ Wh].
+    split; [cbn [exitsS]; lia|].
+    intros k' E; inversion E; subst. rewrite okK_app, okK_lift, Wh. exact Wk.
   - split; [cbn; lia|intros k' E; inversion E; subst; exact Wk].
   - split; [cbn; lia|intros k' E; discriminate].
   - split; [cbn; lia|intros k' E; discriminate].
@@ -237,6 +249,7 @@ Variable io_ret : iokind -> bool.
 Hypothesis Hwf : wf N = true.
 
 Notation gstep := (gstep N D io_ret).
+Notation lstep := (lstep N D io_ret).
 
 Lemma static_ok p : p < nprocs N ->
   okL N p false (body (info N p)) = true /\ okL N p true (finally (info N p)) = true.
@@ -254,10 +267,10 @@ Inductive pstep (p : pid) (c : bool) : pstate -> pstate -> Prop :=
 | ps_ifgo f k : c = false -> pstep p c (Running f (IStmt IfCtxExit :: k)) (Running f k)
 | ps_headin f bd k : c = false -> pstep p c (Running f (IHeadCtx bd :: k)) (Running f (lift bd ++ IHeadCtx bd :: k)).
 
-Lemma gstep_proj g g' : gstep g g' ->
-  exists p, pstep p (cancelled g) (procs g p) (procs g' p) /\ forall q, q <> p -> procs g' q = procs g q.
+Lemma lstep_proj p g g' : lstep p g g' ->
+  pstep p (cancelled g) (procs g p) (procs g' p) /\ forall q, q <> p -> procs g' q = procs g q.
 Proof.
-  intro S. destruct S; exists p.
+  intro S. destruct S.
   all: split; [| intros q0 Hq0; unfold exit_of; try destruct f; cbn; apply set_proc_other; assumption].
   all: match goal with H : procs _ _ = Running _ _ |- _ => rewrite H end.
   all: unfold exit_of; try (destruct f; cbn; rewrite set_proc_same;
@@ -268,6 +281,10 @@ Proof.
   all: apply ps_cont; try (constructor; assumption); try constructor.
   eapply c_sel; eassumption.
 Qed.
+
+Lemma gstep_proj g g' : gstep g g' ->
+  exists p, pstep p (cancelled g) (procs g p) (procs g' p) /\ forall q, q <> p -> procs g' q = procs g q.
+Proof. intros [p S]. exists p. apply lstep_proj. exact S. Qed.
 
 Definition okP (p : pid) (s : pstate) : Prop :=
   match s with Running f k => okK N p f k = true | Exited => True end.
@@ -318,7 +335,7 @@ Ltac crush_ch :=
 
 Lemma closed_mono g g' c : gstep g g' -> closed (chans g c) = true -> closed (chans g' c) = true.
 Proof.
-  intros S Hc. destruct S; unfold exit_of; try destruct f; cbn; try assumption.
+  intros [p0 S] Hc. destruct S; unfold exit_of; try destruct f; cbn; try assumption.
   all: try (destruct a; cbn).
   all: unfold inc_len, dec_len, set_chan, close_all; crush_ch.
 Qed.
@@ -337,7 +354,7 @@ Qed.
 Lemma exit_closes g g' p f k c : gstep g g' -> procs g p = Running f k -> procs g' p = Exited ->
   In c (defer_close (info N p)) -> closed (chans g' c) = true.
 Proof.
-  intros S R E I. destruct S.
+  intros [p0 S] R E I. destruct S.
   all: unfold exit_of in *; try destruct f0; cbn in *.
   all: match goal with H : procs _ ?p1 = Running _ _ |- _ =>
          destruct (Nat.eq_dec p p1) as [->|Hne];
@@ -379,7 +396,7 @@ Proof.
   intros HI S Hs E.
   assert (Keep : forall k, procs g p0 = Running false k -> len (chans g c) = 0)
     by (intros k Ek; eapply inv_once; eassumption).
-  destruct S.
+  destruct S as [p1 S]. destruct S.
   all: try (pose proof (head_ok _ _ _ _ _ HI H) as Hh; cbn [okI] in Hh).
   all: unfold exit_of in *; try destruct f; cbn in E |- *.
   all: match goal with H : procs _ ?p1 = Running _ _ |- _ =>
@@ -427,7 +444,7 @@ Proof. induction 1; [apply inv_init|eapply step_inv; eassumption]. Qed.
 
 Lemma cancelled_mono g g' : gstep g g' -> cancelled g = true -> cancelled g' = true.
 Proof.
-  intros S C. destruct S; unfold exit_of; try destruct f; cbn; try assumption; try reflexivity.
+  intros [p0 S] C. destruct S; unfold exit_of; try destruct f; cbn; try assumption; try reflexivity.
   all: rewrite C; reflexivity.
 Qed.
 
@@ -510,6 +527,8 @@ Proof.
 Qed.
 Lemma check_io me f kd : checkb N me f (Io kd) = true -> kd <> Unknown.
 Proof. destruct kd; cbn; intros H E; discriminate. Qed.
+Lemma check_ioe me f kd h : checkb N me f (IoE kd h) = true -> kd <> Unknown.
+Proof. destruct kd; cbn; intros H E; discriminate. Qed.
 
 Theorem never_stuck g :
   Inv g -> cancelled g = true -> stuck N D io_ret g -> forall p, procs g p = Exited.
@@ -524,42 +543,43 @@ Proof.
     { intros c Hc. destruct (closer_ok_ex _ _ Hc) as [q [Hq [Hrk Ic]]].
       eapply inv_closed; [exact HI|apply Low; exact Hrk|exact Hq|exact Ic]. }
     destruct k as [|i k].
-    - eapply St. eapply g_end; eassumption.
+    - eapply St; eexists; eapply g_end; eassumption.
     - pose proof (head_ok _ _ _ _ _ HI E) as Hi.
       destruct i as [s|bd|c bd|bd n0]; cbn [okI] in Hi.
       + pose proof (okS_check _ _ _ _ Hi) as Hc. destruct s.
         * destruct (has_wake cs) eqn:Hw.
           -- destruct (has_wake_enabled g cs C Hw) as [a [bd [Ia Ea]]].
-             eapply St. eapply g_sel; eassumption.
+             eapply St; eexists; eapply g_sel; eassumption.
           -- unfold checkb, check in Hc. rewrite Hw in Hc. discriminate.
-        * eapply St. eapply g_io; [eassumption|]. apply Hio. eapply check_io; eassumption.
-        * eapply St. eapply g_cancel; eassumption.
-        * eapply St. eapply g_ifctx_exit; eassumption.
-        * eapply St. eapply g_return; eassumption.
+        * eapply St; eexists; eapply g_io; [eassumption|]. apply Hio. eapply check_io; eassumption.
+        * eapply St; eexists; eapply g_ioe_ok; [eassumption|]. apply Hio. eapply check_ioe; eassumption.
+        * eapply St; eexists; eapply g_cancel; eassumption.
+        * eapply St; eexists; eapply g_ifctx_exit; eassumption.
+        * eapply St; eexists; eapply g_return; eassumption.
         * apply check_recvclose in Hc. apply Closed in Hc.
           destruct (len (chans g c)) eqn:L.
-          -- eapply St. eapply g_recv_closed; eassumption.
-          -- eapply St. eapply g_recv_item; [eassumption|lia].
+          -- eapply St; eexists; eapply g_recv_closed; eassumption.
+          -- eapply St; eexists; eapply g_recv_item; [eassumption|lia].
         * apply check_sendonce in Hc. destruct Hc as [Hf [Hs Hcap]]. subst f.
           pose proof (inv_once g HI _ _ _ Hs E) as L0.
           destruct (closed (chans g c)) eqn:Cl.
-          -- eapply St. eapply g_send_closed; eassumption.
-          -- eapply St. eapply g_send_once; [eassumption|assumption|lia].
-        * apply check_join in Hc. eapply St. eapply g_join; [eassumption|]. apply Low. assumption.
+          -- eapply St; eexists; eapply g_send_closed; eassumption.
+          -- eapply St; eexists; eapply g_send_once; [eassumption|assumption|lia].
+        * apply check_join in Hc. eapply St; eexists; eapply g_join; [eassumption|]. apply Low. assumption.
         * discriminate.
-        * eapply St. eapply g_wgadd; eassumption.
-        * eapply St. eapply g_wgdone; eassumption.
-        * eapply St. eapply g_branch_l; eassumption.
-        * eapply St. eapply g_loopctx; eassumption.
-        * eapply St. eapply g_looprange; eassumption.
-        * eapply St. eapply g_loopdata with (n := 0); [eassumption|lia].
-      + eapply St. eapply g_headctx_out; eassumption.
+        * eapply St; eexists; eapply g_wgadd; eassumption.
+        * eapply St; eexists; eapply g_wgdone; eassumption.
+        * eapply St; eexists; eapply g_branch_l; eassumption.
+        * eapply St; eexists; eapply g_loopctx; eassumption.
+        * eapply St; eexists; eapply g_looprange; eassumption.
+        * eapply St; eexists; eapply g_loopdata with (n := 0); [eassumption|lia].
+      + eapply St; eexists; eapply g_headctx_out; eassumption.
       + apply andb_true_iff in Hi. destruct Hi as [Hce _]. apply andb_true_iff in Hce. destruct Hce as [Hc _].
         apply Closed in Hc.
         destruct (len (chans g c)) eqn:L.
-        * eapply St. eapply g_range_closed; eassumption.
-        * eapply St. eapply g_range_item; [eassumption|lia].
-      + eapply St. eapply g_data_out; eassumption. }
+        * eapply St; eexists; eapply g_range_closed; eassumption.
+        * eapply St; eexists; eapply g_range_item; [eassumption|lia].
+      + eapply St; eexists; eapply g_data_out; eassumption. }
   intro p. apply (H (S (rank (info N p)))). lia.
 Qed.
 
@@ -582,7 +602,7 @@ Theorem wf_net_terminates N (Hwf : wf N = true) D io_ret :
   (forall n g', steps N D io_ret n g g' -> n <= total N D g) /\
   (forall n g', steps N D io_ret n g g' -> stuck N D io_ret g' -> forall p, procs g' p = Exited).
 Proof.
-  intros [Hr [Hw [Hp Hf]]]. apply cancelled_terminates; [exact Hwf|].
+  intros [Hr [Hw [Hp [Hf Hc]]]]. apply cancelled_terminates; [exact Hwf|].
   intros kd Hk. destruct kd; auto; exfalso; apply Hk; reflexivity.
 Qed.
 
